@@ -162,6 +162,8 @@ def _configuration_transfer(ctx, repo) -> None:
 
 def check(ctx) -> None:
     repo = ctx.repo
+    ctx.rule("C31.aux", "every executor the subprocess executor constructs for itself receives this executor's module provider and time bounds (arguments bound against the constructor's parameters)", floor=6)
+    _aux_executors(ctx, repo)
     ctx.rule("C31.args", "positional arguments named like a parameter of the callee are at that parameter's position (process args, inner executor construction)", floor=2)
     ctx.rule("C31.transfer", "sibling agreement: every attribute of TestCaseExecutor that a setter can change after construction and that the execution path reads is handed to the child process by _setup_subprocess_execution, and the child uses every parameter it receives", floor=10)
     _configuration_transfer(ctx, repo)
@@ -305,3 +307,29 @@ def check(ctx) -> None:
                 ctx.check("C31.clone", amod.classes[cname], cl.fields.get("_source") == source and same_payload, f"{cname}({source!r}).clone({memo}) has source {cl.fields.get('_source')!r}: the assertion trace that comes back from the subprocess names another reference than the in-process one", what=f"{cname} {source} memo={sorted(memo)} -> unchanged", stmt=f"[{cname}] {source} {sorted(memo)}")
     fat = repo.func(SUB, f"{CLS}._fix_assertion_trace")
     ctx.analysed(fat)
+
+
+def _aux_executors(ctx, repo) -> None:
+    """Every executor the subprocess executor builds for itself (the per-test fallback, the executor inside the child)
+    works on the same module provider - the one that holds the mutated modules - and the same time bounds."""
+    SUB = "pynguin.testcase.subprocess_executor"
+    EXE = "pynguin.testcase.execution"
+    n = 0
+    for mod, qn, fn in repo.all_functions(SUB):
+        for c in own_nodes(fn):
+            if not (isinstance(c, ast.Call) and last_attr(c) in ("SubprocessTestCaseExecutor", "TestCaseExecutor")):
+                continue
+            callee = repo.func(SUB if last_attr(c) == "SubprocessTestCaseExecutor" else EXE, f"{last_attr(c)}.__init__")
+            params = [a.arg for a in callee.args.args][1:]
+            bound = dict(zip(params, c.args))
+            bound.update({k.arg: k.value for k in c.keywords if k.arg})
+            n += 1
+            ctx.analysed(fn)
+            for p in ("module_provider", "maximum_test_execution_timeout", "test_execution_time_per_statement"):
+                if p not in params:
+                    continue
+                got = norm(bound[p]) if p in bound else None
+                ok = got is not None and got.split(".")[-1].lstrip("_") == p
+                ctx.check("C31.aux", c, ok, f"{mod.name}:{qn}: the auxiliary `{last_attr(c)}(...)` gets `{got}` for `{p}`" + (" (the default: a fresh ModuleProvider without the registered mutants - the tests of a failed batch are re-run against the original module)" if p == "module_provider" and got is None else " (the default instead of this executor's own bound)" if got is None else ""), what=f"{qn}: auxiliary executor shares {p}", stmt=f"[{qn}] {last_attr(c)}(...).{p}")
+    if n < 2:
+        raise AnalysisError(f"C31.aux: only {n} auxiliary executor constructions found (confirmed by reading: 2)")
